@@ -659,10 +659,15 @@ impl<'tcx> Dumper<'tcx> {
                 o = o.put_s("self_ty", st.to_string());
             }
         }
+        let mut bounds: Vec<J> = Vec::new();
+        self.local_bounds(did, args, &mut bounds);
         let env = TypingEnv::post_analysis(tcx, owner);
         match Instance::try_resolve(tcx, env, did, args) {
             Ok(Some(inst)) => {
                 let rdid = inst.def_id();
+                if rdid != did && matches!(inst.def, ty::InstanceKind::Item(_)) {
+                    self.local_bounds(rdid, inst.args, &mut bounds);
+                }
                 match inst.def {
                     ty::InstanceKind::Item(_) => {
                         o = o.put_s("rkind", "item");
@@ -693,7 +698,51 @@ impl<'tcx> Dumper<'tcx> {
                 o = o.put_s("rkind", "error");
             }
         }
+        if !bounds.is_empty() {
+            o = o.put("bounds", J::Arr(bounds));
+        }
         o.done()
+    }
+
+    /// Trait bounds (with supertraits) the callee places on types defined in this crate: `[self type, trait]`.
+    /// std can call a local trait impl back only through such a bound.
+    fn local_bounds(&self, did: DefId, args: GenericArgsRef<'tcx>, out: &mut Vec<J>) {
+        let tcx = self.tcx;
+        if !matches!(tcx.def_kind(did), DefKind::Fn | DefKind::AssocFn) {
+            return;
+        }
+        let preds = tcx.predicates_of(did).instantiate(tcx, args);
+        for clause in preds.predicates.iter() {
+            let clause = clause.clone().skip_norm_wip();
+            if let Some(tp) = clause.as_trait_clause() {
+                let tp = tp.skip_binder();
+                // the trivial `Self: Trait` predicate of a trait method says nothing about call-backs
+                if let Some(tr) = tcx.trait_of_assoc(did) {
+                    if tp.trait_ref.def_id == tr && Some(tp.trait_ref.self_ty()) == args.types().next() {
+                        continue;
+                    }
+                }
+                let mut st = tp.trait_ref.self_ty();
+                while let ty::Ref(_, inner, _) = st.kind() {
+                    st = *inner;
+                }
+                let local_adt = match st.kind() {
+                    ty::Adt(def, _) => def.did().is_local(),
+                    _ => false,
+                };
+                if !local_adt {
+                    continue;
+                }
+                for sup in rustc_type_ir::elaborate::supertrait_def_ids(tcx, tp.trait_ref.def_id) {
+                    let tk = self.key(sup);
+                    if tk.starts_with("std::marker::") || tk.starts_with("core::marker::") {
+                        continue;
+                    }
+                    let j = J::Arr(vec![J::s(st.to_string()), J::s(tk)]);
+                    out.push(j);
+                }
+            }
+        }
     }
 
     fn statement(&self, owner: DefId, body: &Body<'tcx>, st: &Statement<'tcx>) -> Option<J> {
